@@ -124,9 +124,10 @@ def sortDesc (l : List (UInt64 × Nat)) : List (UInt64 × Nat) := l.foldr insert
 
 def sumNat (l : List Nat) : Nat := l.foldl (· + ·) 0
 
-/-- sum of `max(c - avg, 0)` over the given contributions (Python `sum` starts at integer 0) -/
+/-- sum of `max(c - avg, 0)` over the given contributions: Python's `sum` over floats (compensated summation in CPython ≥ 3.12, which makes
+exact ties between id columns come out as ties) -/
 def flatteningOf (cs : List Nat) (avg : α) : α :=
-  cs.foldl (fun acc c => acc + smax (ofInt (Int.ofNat c) - avg) (ofInt 0)) (ofInt 0)
+  ScalarOps.pySum (cs.map fun c => smax (ofInt (Int.ofNat c) - avg) (ofInt 0))
 
 /-- The arithmetic of `_flatten_contributions` once the contributions are sorted and the numbers of
 outliers `oc` and of top entities `tc` are drawn. -/
